@@ -521,23 +521,41 @@ impl Optimizer {
     ) -> bool {
         match op {
             LogicalOperator::Join(join) => {
+                // Only inner and cross joins may be commuted and re-associated; the
+                // rebuilt tree consists of inner joins
+                if !matches!(
+                    join.join_type,
+                    crate::query::plan::JoinType::Inner | crate::query::plan::JoinType::Cross
+                ) {
+                    return false;
+                }
+
                 // Collect from both sides
                 let left_ok = self.collect_join_tree(&join.left, relations, conditions);
                 let right_ok = self.collect_join_tree(&join.right, relations, conditions);
 
-                // Add conditions from this join
+                // Add conditions from this join. A condition that the join graph cannot
+                // represent, or that is not written left-input = right-input (the planner
+                // does not use such a condition), would change its meaning in the rebuilt
+                // tree: leave such a tree alone.
+                let left_vars = self.collect_output_variables(&join.left);
+                let right_vars = self.collect_output_variables(&join.right);
                 for cond in &join.conditions {
-                    if let (Some(left_var), Some(right_var)) = (
+                    let (Some(left_var), Some(right_var)) = (
                         self.extract_variable_from_expr(&cond.left),
                         self.extract_variable_from_expr(&cond.right),
-                    ) {
-                        conditions.push(JoinInfo {
-                            left_var,
-                            right_var,
-                            left_expr: cond.left.clone(),
-                            right_expr: cond.right.clone(),
-                        });
+                    ) else {
+                        return false;
+                    };
+                    if !left_vars.contains(&left_var) || !right_vars.contains(&right_var) {
+                        return false;
                     }
+                    conditions.push(JoinInfo {
+                        left_var,
+                        right_var,
+                        left_expr: cond.left.clone(),
+                        right_expr: cond.right.clone(),
+                    });
                 }
 
                 left_ok && right_ok
@@ -551,8 +569,15 @@ impl Optimizer {
                 true
             }
             LogicalOperator::Filter(filter) => {
-                // A filter on a base relation is still part of the join tree
-                self.collect_join_tree(&filter.input, relations, conditions)
+                // A filter on a base relation stays with that relation. A filter above a
+                // join has no place in the rebuilt tree, so such a tree is left alone.
+                match Self::base_relation_variable(&filter.input) {
+                    Some(variable) => {
+                        relations.push((variable, op.clone()));
+                        true
+                    }
+                    None => false,
+                }
             }
             LogicalOperator::Expand(expand) => {
                 // Expand is a special case - it's like a join with the adjacency
@@ -561,6 +586,18 @@ impl Optimizer {
                 true
             }
             _ => false,
+        }
+    }
+
+    /// The variable under which a base relation (a scan or an expand, possibly below
+    /// filters) takes part in join conditions.
+    fn base_relation_variable(op: &LogicalOperator) -> Option<String> {
+        match op {
+            LogicalOperator::NodeScan(scan) => Some(scan.variable.clone()),
+            LogicalOperator::EdgeScan(scan) => Some(scan.variable.clone()),
+            LogicalOperator::Expand(expand) => Some(expand.to_variable.clone()),
+            LogicalOperator::Filter(filter) => Self::base_relation_variable(&filter.input),
+            _ => None,
         }
     }
 
@@ -580,6 +617,15 @@ impl Optimizer {
         conditions: &[JoinInfo],
     ) -> Option<LogicalOperator> {
         use join_order::{DPccp, JoinGraphBuilder};
+
+        // Every condition must connect two of the relations: one that mentions a variable
+        // from inside a relation (not the one it is registered under) cannot be placed
+        let known: HashSet<&str> = relations.iter().map(|(var, _)| var.as_str()).collect();
+        if conditions.iter().any(|cond| {
+            !known.contains(cond.left_var.as_str()) || !known.contains(cond.right_var.as_str())
+        }) {
+            return None;
+        }
 
         // Build the join graph
         let mut builder = JoinGraphBuilder::new();
@@ -2035,5 +2081,135 @@ mod tests {
             panic!("Expected the filter to stay above the Return");
         };
         assert!(matches!(filter.input.as_ref(), LogicalOperator::Return(_)));
+    }
+
+    fn reorder_test_scan(variable: &str) -> LogicalOperator {
+        LogicalOperator::NodeScan(NodeScanOp {
+            variable: variable.to_string(),
+            label: Some("Person".to_string()),
+            input: None,
+        })
+    }
+
+    fn reorder_test_join(
+        join_type: JoinType,
+        left: LogicalOperator,
+        right: LogicalOperator,
+        left_var: &str,
+        right_var: &str,
+    ) -> LogicalOperator {
+        LogicalOperator::Join(JoinOp {
+            left: Box::new(left),
+            right: Box::new(right),
+            join_type,
+            conditions: vec![crate::query::plan::JoinCondition {
+                left: LogicalExpression::Variable(left_var.to_string()),
+                right: LogicalExpression::Variable(right_var.to_string()),
+            }],
+        })
+    }
+
+    fn count_filters(op: &LogicalOperator) -> usize {
+        match op {
+            LogicalOperator::Filter(f) => 1 + count_filters(&f.input),
+            LogicalOperator::Join(j) => count_filters(&j.left) + count_filters(&j.right),
+            LogicalOperator::Return(r) => count_filters(&r.input),
+            _ => 0,
+        }
+    }
+
+    #[test]
+    fn test_join_reorder_keeps_filters() {
+        // Filters above the join tree and on its leaves survive join reordering
+        let age_filter = |variable: &str, input: LogicalOperator| {
+            LogicalOperator::Filter(FilterOp {
+                predicate: LogicalExpression::Binary {
+                    left: Box::new(LogicalExpression::Property {
+                        variable: variable.to_string(),
+                        property: "age".to_string(),
+                    }),
+                    op: BinaryOp::Gt,
+                    right: Box::new(LogicalExpression::Literal(Value::Int64(30))),
+                },
+                input: Box::new(input),
+            })
+        };
+        let plan = LogicalPlan::new(age_filter(
+            "a",
+            reorder_test_join(
+                JoinType::Inner,
+                reorder_test_scan("a"),
+                age_filter("b", reorder_test_scan("b")),
+                "a",
+                "b",
+            ),
+        ));
+
+        let optimized = Optimizer::new()
+            .with_filter_pushdown(false)
+            .optimize(plan)
+            .unwrap();
+
+        assert_eq!(count_filters(&optimized.root), 2);
+    }
+
+    #[test]
+    fn test_join_reorder_leaves_outer_joins_alone() {
+        let plan = LogicalPlan::new(reorder_test_join(
+            JoinType::Left,
+            reorder_test_scan("a"),
+            reorder_test_scan("b"),
+            "a",
+            "b",
+        ));
+
+        let optimized = Optimizer::new().optimize(plan).unwrap();
+
+        let LogicalOperator::Join(join) = &optimized.root else {
+            panic!("Expected a join");
+        };
+        assert_eq!(join.join_type, JoinType::Left);
+    }
+
+    #[test]
+    fn test_join_reorder_writes_conditions_left_to_right() {
+        // Whatever order DPccp picks, every condition names a column of the left input
+        // first: the planner ignores a condition written the other way round
+        fn check(op: &LogicalOperator, optimizer: &Optimizer) {
+            if let LogicalOperator::Join(join) = op {
+                let left_vars = optimizer.collect_output_variables(&join.left);
+                let right_vars = optimizer.collect_output_variables(&join.right);
+                for cond in &join.conditions {
+                    let LogicalExpression::Variable(l) = &cond.left else {
+                        panic!("variable expected")
+                    };
+                    let LogicalExpression::Variable(r) = &cond.right else {
+                        panic!("variable expected")
+                    };
+                    assert!(left_vars.contains(l), "{l} is not a column of the left input");
+                    assert!(right_vars.contains(r), "{r} is not a column of the right input");
+                }
+                check(&join.left, optimizer);
+                check(&join.right, optimizer);
+            }
+        }
+
+        let plan = LogicalPlan::new(reorder_test_join(
+            JoinType::Inner,
+            reorder_test_join(
+                JoinType::Inner,
+                reorder_test_scan("a"),
+                reorder_test_scan("b"),
+                "a",
+                "b",
+            ),
+            reorder_test_scan("c"),
+            "b",
+            "c",
+        ));
+
+        let optimizer = Optimizer::new();
+        let optimized = optimizer.optimize(plan).unwrap();
+        check(&optimized.root, &optimizer);
     }
 }
